@@ -66,7 +66,9 @@ func c08Bundles() map[string][]string {
 				"{call two.show data=\"all\"}{param label: $a /}{/call}{call two.show/}" +
 				"{augmentMap($m, ['extra': 1])}{$m}{keys(['only': 1])}{['k': $a, 'j': [1, $a]]}" +
 				"{msg desc=\"d\"}Hi <b>{$a}</b> {$b}{/msg}{css $a, c}{G_ONE}" +
-				"\n{/template}\n/** @param x */\n{template .fails}\nbefore{$x}{1 < 'a'}after\n{/template}\n",
+				"\n{/template}\n/** @param x */\n{template .fails}\nbefore{$x}{1 < 'a'}after\n{/template}\n" +
+				// a failure two calls deep (the error text carries the chain of call sites)
+				"/** @param x */\n{template .failsdeep}\nd{call .failsmid data=\"all\"/}\n{/template}\n/** @param x */\n{template .failsmid}\nm{call two.show/}{call .fails data=\"all\"/}\n{/template}\n",
 			"{namespace p.two}\n/**\n * @param? label\n * @param? a\n */\n{template .show}\n<{$label ?: 'none'}|fb:{$a ?: 'na'}>{let $label: 'inner' /}{$label}\n{/template}\n",
 		},
 		"loops": {
